@@ -631,8 +631,8 @@ impl CpcSketch {
             )));
         }
 
-        let uncompressed = compressed.uncompress(lg_k, num_coupons);
-        Ok(CpcSketch {
+        let uncompressed = compressed.uncompress(lg_k, num_coupons)?;
+        let sketch = CpcSketch {
             lg_k,
             seed,
             seed_hash,
@@ -644,7 +644,15 @@ impl CpcSketch {
             merge_flag: !has_hip,
             kxp,
             hip_est_accum,
-        })
+        };
+        // The window offset and the update logic are driven by the coupon count: it must be
+        // the number of bits of the matrix that the window and the table describe.
+        if !sketch.validate() {
+            return Err(Error::deserial(
+                "num_coupons does not match the decoded window and surprising values",
+            ));
+        }
+        Ok(sketch)
     }
 
     fn write_hip(&self, bytes: &mut SketchBytes) {
